@@ -16,7 +16,7 @@ import z3
 from pyvc.core import (SV, SInt, SBool, SSeq, SDict, Obj, Val, VNone, BoolS, IntS, to_val, to_int, to_bool_term, PyRaise, Unsupported,
                        run, run_raises, Stub)
 from pyvc.expr import seq_of
-from pyvc.driver import Ob
+from pyvc.driver import Ob, cover_hyps
 from pyvc.ground import Q
 from pyvc.env import _MISSING
 from props import routine_world as rw
@@ -151,7 +151,7 @@ def _pair(chk, kind, mcls, ucls):
     for pi, res in enumerate(results):
         _pair_one(chk, label, kind, pi, res)
     if results:
-        chk.add(Ob(label, "cover", "pre", results[0][0].hyps, z3.BoolVal(True), expect="sat"))
+        chk.add(Ob(label, "cover", "pre", cover_hyps(results), z3.BoolVal(True), expect="sat"))
     chk.trusted.update(I.assumed_used)
 
 
